@@ -32,8 +32,13 @@ TRUSTED_BASE = [
   "selects element 1; with strict_lrm_index_sign=True a signed index expression keeps its sign "
   "(IEEE 1800 6.24.1 'the signedness shall pass through unchanged'), so the same index is -1 and "
   "out of range.",
-  "size cast N'(e): operand self-determined, result width N (truncate, or extend according to the "
-  "operand's signedness), result signedness = operand signedness (IEEE 1800 6.24.1).",
+  "size cast N'(e): result width N, result signedness = signedness of e.  Default "
+  "(cast_operand_self_determined=False): e is evaluated as if assigned to an N-bit variable, i.e. in a "
+  "context of max(N, L(e)) bits (IEEE 1800-2017 6.24.1 'the value that a packed array type with a "
+  "single [n-1:0] dimension would hold after being assigned the expression'; Verilator: "
+  "23'(1'b1 + 1'b1) uses 23-bit math).  With cast_operand_self_determined=True e is evaluated at its "
+  "self-determined width and then resized (the reading in DESIGN.md E2; some tools).  The two "
+  "readings differ only for N > L(e) with an operator expression inside, e.g. 32'( a16 + b16 ).",
   "unsized decimal literals are 32-bit signed, unsized based literals 32-bit unsigned (width "
   "max(32, bits needed)); int/integer are 32-bit signed, 'int unsigned' unsigned; every logic/"
   "wire/reg/bit/struct is unsigned unless declared 'signed'; selects, concatenations, comparisons, "
@@ -189,8 +194,11 @@ class Design:
     from . import drivers
     return drivers.driver_problems(self, top)
 
-  def simulate(self, top, strict_lrm_index_sign=False):
-    return Simulator(self, top, strict_lrm_index_sign)
+  def simulate(self, top, strict_lrm_index_sign=False, cast_operand_self_determined=False):
+    """Elaborate the hierarchy below module `top` and return a Simulator.  The two switches select
+    between readings of IEEE 1800 on which tools are known or suspected to differ (TRUSTED_BASE);
+    a later check should report a disagreement only if it holds under every reading."""
+    return Simulator(self, top, strict_lrm_index_sign, cast_operand_self_determined)
 
   # -- types -------------------------------------------------------------------------------
 
@@ -405,10 +413,11 @@ def _spow(a, b):
 
 class Compiler:
 
-  def __init__(self, design, sim, strict):
+  def __init__(self, design, sim, strict, cast_self=False):
     self.d = design
     self.sim = sim
     self.strict = strict
+    self.cast_self = cast_self
     self.reads = None           # set of Sym read by the process being compiled
     self.writes = None          # set of Sym written by the process being compiled
     self.constmemo = design.constmemo
@@ -417,13 +426,10 @@ class Compiler:
 
   def lookup(self, name, sc, line):
     while sc is not None:
-      s = sc.get(name) if type(sc) is dict else None
-      if type(sc) is dict:
-        if s is not None:
-          return s
-        sc = sc.get("\0parent")
-      else:     # pragma: no cover
-        break
+      s = sc.get(name)
+      if s is not None:
+        return s
+      sc = sc.get("\0parent")
     raise SVElabError("identifier %r is not declared" % name, line)
 
   # -- constness ---------------------------------------------------------------------------
@@ -433,6 +439,15 @@ class Compiler:
     t = type(e)
     if t is Num:
       return True
+    if not static_syms:
+      c = self.constmemo.get(e)
+      if c is None:
+        c = self.constmemo[e] = self._is_const(e, sc, ())
+      return c
+    return self._is_const(e, sc, static_syms)
+
+  def _is_const(self, e, sc, static_syms):
+    t = type(e)
     if t is Ref:
       try:
         sym = self.lookup(e.name, sc, e.line)
@@ -995,11 +1010,7 @@ class Compiler:
   def compile(self, e, sc, W, S):
     """closure giving the value of e in a context of width W and signedness S (int in [0,2^W))"""
     if type(e) is not Num and self.sim is not None:
-      key = (e, W, S)
-      c = self.constmemo.get(key)
-      if c is None:
-        c = self.constmemo[key] = self.is_const(e, sc)
-      if c:
+      if self.is_const(e, sc):
         save = self.reads
         self.reads = None
         v = self._compile(e, sc, W, S)()
@@ -1206,15 +1217,24 @@ class Compiler:
     if t is Ref:
       return self.compile_read(e, sc), w, sg
     if t is Cast:
-      f, w0, s0 = self.compile_self(e.expr, sc)
       N = e.width
+      w0, s0 = self.size(e.expr, sc)
+      if self.cast_self:
+        # reading "operand self-determined": evaluate at its own width, then resize
+        f = self.compile(e.expr, sc, w0, s0)
+        if N > w0 and s0:
+          sb = 1 << (w0 - 1)
+          m = _mask(N)
+          return (lambda: ((f() ^ sb) - sb) & m), w, sg
+      else:
+        # IEEE 1800-2017 6.24.1: "the value that a packed array type with a single [n-1:0]
+        # dimension would hold after being assigned the expression": an assignment-like context
+        # of max(N, L(e)) bits with the signedness of e
+        Wc = N if N > w0 else w0
+        f = self.compile(e.expr, sc, Wc, s0)
       if N < w0:
         m = _mask(N)
         return (lambda: f() & m), w, sg
-      if N > w0 and s0:
-        sb = 1 << (w0 - 1)
-        m = _mask(N)
-        return (lambda: ((f() ^ sb) - sb) & m), w, sg
       return f, w, sg
     if t is Concat or t is Repl:
       parts = []
@@ -1393,7 +1413,7 @@ class Proc:
 class Simulator:
   """Two-state simulation of the hierarchy rooted at module `top`."""
 
-  def __init__(self, design, top, strict_lrm_index_sign=False):
+  def __init__(self, design, top, strict_lrm_index_sign=False, cast_operand_self_determined=False):
     from . import drivers
     self.design = design
     self.top_name = top
@@ -1411,10 +1431,14 @@ class Simulator:
     self._selfclear = []
     self._drivers = drivers
     self.n_aliased = 0
-    self.comp = Compiler(design, self, strict_lrm_index_sign)
+    self.comp = Compiler(design, self, strict_lrm_index_sign, cast_operand_self_determined)
     if top not in design.module_asts:
       raise SVElabError("top module %r is not defined" % top)
+    self._pending = []
     self.top = self._elab(top, "", None, None, (top,))
+    for args in self._pending:
+      self._connect(*args)
+    self._pending = None
     self._compile_instance(self.top)
     self.inputs = {}
     self.outputs = {}
@@ -1462,7 +1486,9 @@ class Simulator:
         else:
           c = conns.get(name)
           if c is None or c[0] is None:
-            pass    # unconnected port: an input stays 0 (and counts as undriven)
+            # unconnected port: an input stays 0 (and counts as undriven)
+            if direction == "input":
+              und = [_mask(sym.width)] * sym.nelem
           else:
             e, cl = c
             psym = self._alias_target(e, parent, sym)
@@ -1479,7 +1505,6 @@ class Simulator:
               if direction == "input":
                 und = None
       sym.undriven = und
-    inst._pending = pending if False else None
     # child instances
     for ia in info.insts:
       if ia.name in inst.children:
@@ -1490,9 +1515,9 @@ class Simulator:
         raise SVElabError("module %r is not defined (instance %r)" % (ia.module, ia.name), ia.line)
       child = self._elab(ia.module, prefix + ia.name, inst, ia, stack + (ia.module,))
       inst.children[ia.name] = child
-    # connection processes are compiled after both scopes exist
+    # connection processes are compiled once the whole hierarchy exists
     for sym, e, cl in pending:
-      self._connect(parent, inst, sym, e, cl)
+      self._pending.append((parent, inst, sym, e, cl))
     return inst
 
   def _alias_target(self, e, parent, csym):
